@@ -366,6 +366,14 @@ func c13wBuildMsg(r *Rng, shape, marker string, bigSize int) []byte {
 			"preamble" + nl + "--" + b + nl + leaf("text/plain; charset=utf-8") + "--" + b + nl + leaf("text/html") + "--" + b + "--" + nl + "epilogue" + nl)
 	case "nested":
 		b, bi := "outer-"+marker, "inner-"+marker
+		switch r.Intn(3) { // boundary relations: one boundary a proper prefix of the other (neither is a delimiter of the other)
+		case 0:
+			b = "rel-" + marker
+			bi = b + "-alt"
+		case 1:
+			bi = "rel-" + marker
+			b = bi + "x"
+		}
 		inner := "Content-Type: multipart/alternative; boundary=" + bi + nl + nl +
 			"--" + bi + nl + leaf("text/plain") + "--" + bi + nl + leaf("text/html") + "--" + bi + "--" + nl
 		return []byte(hdr("Content-Type: multipart/mixed; boundary="+b) +
